@@ -503,7 +503,8 @@ def gen_c01(tier, seed):
             inst["mode"] = "spec_taps"
             # dense real coefficients: full-symbolic rows cost 17+ min (U8 Lanczos 5->7); use 4 (2 for
             # 16-bit) symbolic components at generator-chosen positions over a fixed background
-            inst["hot"] = 2 if inst["pixel"].startswith("U16") else 4
+            nsrc_ = inst["sw"] * inst["sh"] * PIX[inst["pixel"]][1]
+            inst["hot"] = 2 if (inst["pixel"].startswith("U16") or nsrc_ <= 8) else 4
             inst["hot_fixed"] = True
             if inst["pixel"].startswith("U16"):
                 # dense 32-bit coefficients x 16-bit data: > 25 min even with 4 symbolic components
